@@ -51,6 +51,12 @@ def run_mode(repo, mode, samples, prices=("p",), market_reaction=False):
         def hook(i, a, k):
             i.event("fill_at", a[0].attrs["price"], app.attrs.get("time"))
             r = i.call(orig, a, k)
+            if market_reaction and state["done"] and a[0].name == "MKT" and not state.get("second"):
+                # second-level reaction: the hook of the market order's own execution rests a LIMIT order at the price p again
+                state["second"] = True
+                l2 = W.make_order(repo, "L2", W.enum_value(repo, "sides", "BUY"), W.enum_value(repo, "order_types", "LIMIT"), R.atom("qr"), R.atom("p"),
+                                  status=W.enum_value(repo, "order_statuses", "ACTIVE"))
+                i.call(i.getattr(i.world["orders_state"], "add_order"), [l2], {})
             if market_reaction and not state["done"]:
                 state["done"] = True
                 mo = W.make_order(repo, "MKT", W.enum_value(repo, "sides", "BUY"), W.enum_value(repo, "order_types", "MARKET"), R.atom("qr"), R.atom("m"),
@@ -203,7 +209,8 @@ def check_hook_market_orders(repo, rep, tier):
     rep.rule(rid, "a MARKET order submitted by the hook of a fill inside a chunk (e.g. liquidate(), an exit within 0.015 % of the price) is "
                   "executed at the end of THAT minute, as in the normal simulator, not after the later candles of the chunk: both matchers "
                   "are executed abstractly on a two-minute span with one resting order and a hook-submitted market order at the price m, for "
-                  "every weak ordering of (o1,c1,h1,l1,c2,h2,l2,p,m): same fills (price, simulated time) and the same orders still waiting")
+                  "every weak ordering of (o1,c1,h1,l1,c2,h2,l2,p,m): same fills (price, simulated time) and the same orders still waiting; the "
+                  "hook of that market order rests a further LIMIT order, which the following minute of the chunk must see")
     ranks = list(weak_orderings(SYMS + ["m"], CONS))
     if tier == "quick":
         ranks = ranks[::16]
